@@ -236,6 +236,8 @@ def main(run: Run):
     run_configs(run, __name__, cfgs)
     from . import C20_l1
     C20_l1.add_to(run)
+    from . import validation
+    validation.add_to(run, ['memory_map_setters'])
     return run.finish(
         explanation="L1: every Signature.__eq__ proved equivalent to 'same class and equal defining parameters' by pyvc (unbounded). "
                     "L3: create() round trip, equality exactness over all pairs of the scope, member presence/direction/width tables, and "
